@@ -1,22 +1,27 @@
 ------------------------------- MODULE Rat -------------------------------
-(***************************************************************************)
-(* Exact rational arithmetic on pairs <<num, den>> with den > 0, kept in   *)
-(* lowest terms.  TLC's integers are 32-bit and TLC raises an error on     *)
-(* overflow instead of wrapping, so any value it reports is exact.         *)
-(***************************************************************************)
+\* Exact rational arithmetic on pairs <<num, den>> with den > 0, kept in lowest terms.
+\* TLC's integers are 32-bit.  Every product and sum is range-checked *before* it is computed; an
+\* operation that would leave the range returns the absorbing value NaNR = <<0, 0>> ("not representable")
+\* instead of raising, so a result without NaNR is exact and a result with NaNR is simply not used
+\* (the harness drops such an instance and counts it).
 EXTENDS Integers, Sequences
 
 Abs(x) == IF x < 0 THEN -x ELSE x
+Lim == 2147483647
 
 RECURSIVE GCD(_, _)
 GCD(a, b) == IF b = 0 THEN a ELSE GCD(b, a % b)
 
+NaNR       == <<0, 0>>
+IsNaN(r)   == r[2] = 0
+MulOK(a, b) == a = 0 \/ b = 0 \/ Abs(a) <= Lim \div Abs(b)
+AddOK(a, b) == Abs(a) <= Lim - Abs(b)
+
+RNormG(n, d, g) == IF d < 0 THEN <<(-n) \div g, (-d) \div g>> ELSE <<n \div g, d \div g>>
 RNorm(r) ==
-  LET n == r[1]
-      d == r[2]
-      s == IF d < 0 THEN -1 ELSE 1
-      g == GCD(Abs(n), Abs(d))
-  IN  IF n = 0 THEN <<0, 1>> ELSE <<(s * n) \div g, (s * d) \div g>>
+  IF r[2] = 0 THEN NaNR
+  ELSE IF r[1] = 0 THEN <<0, 1>>
+  ELSE RNormG(r[1], r[2], GCD(Abs(r[1]), Abs(r[2])))
 
 R(n, d)    == RNorm(<<n, d>>)
 RInt(n)    == <<n, 1>>
@@ -24,24 +29,32 @@ RZero      == <<0, 1>>
 ROne       == <<1, 1>>
 IsRat(r)   == /\ r \in Seq(Int) /\ Len(r) = 2 /\ r[2] > 0
 
-RNeg(a)    == <<-a[1], a[2]>>
-RAdd(a, b) == RNorm(<<a[1] * b[2] + b[1] * a[2], a[2] * b[2]>>)
+RNeg(a)    == IF IsNaN(a) THEN NaNR ELSE <<-a[1], a[2]>>
+
+\* a/b + c/d with g = gcd(b, d):  (a (d/g) + c (b/g)) / (b (d/g))
+RAddG(a, b, db, da) ==      \* db = b[2]/g, da = a[2]/g
+  IF MulOK(a[1], db) /\ MulOK(b[1], da) /\ MulOK(a[2], db)
+  THEN IF AddOK(a[1] * db, b[1] * da) THEN RNorm(<<a[1] * db + b[1] * da, a[2] * db>>) ELSE NaNR
+  ELSE NaNR
+RAddH(a, b, g) == RAddG(a, b, b[2] \div g, a[2] \div g)
+RAdd(a, b) == IF IsNaN(a) \/ IsNaN(b) THEN NaNR ELSE RAddH(a, b, GCD(a[2], b[2]))
 RSub(a, b) == RAdd(a, RNeg(b))
+
 \* cross-cancel before multiplying so that intermediate products stay small
+RMulG(n1, d2, n2, d1) == IF MulOK(n1, n2) /\ MulOK(d1, d2) THEN RNorm(<<n1 * n2, d1 * d2>>) ELSE NaNR
+RMulH(a, b, g1, g2) == RMulG(a[1] \div g1, b[2] \div g1, b[1] \div g2, a[2] \div g2)
 RMul(a, b) ==
-  LET g1 == GCD(Abs(a[1]), b[2])
-      g2 == GCD(Abs(b[1]), a[2])
-      n1 == IF a[1] = 0 THEN 0 ELSE a[1] \div g1
-      d2 == IF a[1] = 0 THEN 1 ELSE b[2] \div g1
-      n2 == IF b[1] = 0 THEN 0 ELSE b[1] \div g2
-      d1 == IF b[1] = 0 THEN 1 ELSE a[2] \div g2
-  IN  RNorm(<<n1 * n2, d1 * d2>>)
-RInv(a)    == RNorm(<<a[2], a[1]>>)
+  IF IsNaN(a) \/ IsNaN(b) THEN NaNR
+  ELSE IF a[1] = 0 \/ b[1] = 0 THEN RZero
+  ELSE RMulH(a, b, GCD(Abs(a[1]), b[2]), GCD(Abs(b[1]), a[2]))
+RInv(a)    == IF IsNaN(a) \/ a[1] = 0 THEN NaNR ELSE IF a[1] < 0 THEN <<-a[2], -a[1]>> ELSE <<a[2], a[1]>>
 RDiv(a, b) == RMul(a, RInv(b))
 
-RLt(a, b)  == a[1] * b[2] < b[1] * a[2]
-RLe(a, b)  == a[1] * b[2] <= b[1] * a[2]
-REq(a, b)  == a[1] * b[2] = b[1] * a[2]
+\* comparisons (callers use them on small values; a NaN or an out-of-range cross product compares FALSE)
+CmpOK(a, b) == ~IsNaN(a) /\ ~IsNaN(b) /\ MulOK(a[1], b[2]) /\ MulOK(b[1], a[2])
+RLt(a, b)  == CmpOK(a, b) /\ a[1] * b[2] < b[1] * a[2]
+RLe(a, b)  == CmpOK(a, b) /\ a[1] * b[2] <= b[1] * a[2]
+REq(a, b)  == CmpOK(a, b) /\ a[1] * b[2] = b[1] * a[2]
 RMin(a, b) == IF RLe(a, b) THEN a ELSE b
 RMax(a, b) == IF RLe(a, b) THEN b ELSE a
 RAbs(a)    == <<Abs(a[1]), a[2]>>
